@@ -187,6 +187,22 @@ func (ex *Exec) localCell(fr *Frame, obj types.Object) *Cell {
 	return nil
 }
 
+// localHeapVar: a local variable that escapes (heap-allocated struct): the
+// pointer its Alloc produced.
+func (ex *Exec) localHeapVar(fr *Frame, obj types.Object) Value {
+	if fr == nil {
+		return nil
+	}
+	for v, val := range fr.regs {
+		if al, ok := v.(*ssa.Alloc); ok && al.Heap {
+			if (al.Pos().IsValid() && al.Pos() == obj.Pos()) || fr.allocObj(al) == obj {
+				return val
+			}
+		}
+	}
+	return nil
+}
+
 // allocObj finds the source variable of an Alloc through the debug refs.
 func (fr *Frame) allocObj(a *ssa.Alloc) types.Object {
 	if fr.allocObjs == nil {
@@ -268,6 +284,14 @@ func (ex *Exec) evalSpec(e ast.Expr, info *types.Info, env *SpecEnv, pc *Term) V
 				if !ok {
 					return ZeroV(c.typ)
 				}
+				return v
+			}
+			if p := ex.localHeapVar(env.fr, o); p != nil {
+				ex.dry++
+				ex.inSpec++
+				v := ex.load(env.st, p, nil, pc, token.NoPos)
+				ex.dry--
+				ex.inSpec--
 				return v
 			}
 			panic(fmt.Sprintf("contract refers to variable %s which is not in scope of the verified function", o.Name()))
@@ -530,6 +554,9 @@ func (ex *Exec) specAddr(e ast.Expr, info *types.Info, env *SpecEnv, pc *Term) V
 		if o, ok := info.Uses[x].(*types.Var); ok {
 			if c := ex.localCell(env.fr, o); c != nil {
 				return PtrV{Kind: PLocal, Cell: c}
+			}
+			if p := ex.localHeapVar(env.fr, o); p != nil {
+				return p
 			}
 		}
 	}
